@@ -127,6 +127,21 @@ ADDED_R11 = {
  "C20": "oracle on the wire: what the I/O thread accepted from a channel before the connection's close point is written, in whole frames, once the client's last frame is.",
 }
 
+ADDED_R12 = {
+ "C02": "a high-water mark below one message (default low-water mark), with and without a stalled transport: throttling episodes while the messages go out.",
+ "C03": "what the server still had in its pipe when the client's Connection.Close reached it (a delivery, a returned message, ahead of its CloseOk) still reaches its addressee.",
+ "C04": "a high-water mark below one publish: every publish is a throttling episode and the calls behind it still get their own replies.",
+ "C06": "the first session with the client's output stuck behind a peer that takes nothing while the server's messages arrive (every fifth cut): they are handed on when they arrive.",
+ "C09": "the closed channel had a consumer earlier that the client cancelled and dropped (states idle and inflight).",
+ "C12": "the ids scenario of C10 run as a second part (methods for channel 65535 and reused ids reach the wire on that channel).",
+ "C15": "(through hb) an I/O thread that is not scheduled for two whole intervals while the server keeps sending: the rx timer's expiry and the waiting bytes are found in one wake-up; the server was never silent.",
+ "C16": "a virtual host with %-sequences, '+' and '/' in the handshake sessions; 15 virtual-host spellings through make_open (nothing is decoded or trimmed on the way to Connection.Open).",
+ "C17": "an I/O thread that is not scheduled for two whole intervals while the server keeps sending every 0.9h (liveness reference from the arrival instants).",
+ "C18": "seqx tuning-builders: every sequence of up to 3 (thorough 4) ConnectionTuning builder calls over 7 boundary values - the fields equal the last arguments (9 724 / 204 k sequences).",
+ "C19": "connection_timeout=0 over loopback (the attempt times out at once); a vhost whose name contains a literal %2F.",
+ "C20": "the server's Connection.Close with reply code 200 and 0 in five batches.",
+}
+
 
 def main():
     hooks_commits = subprocess.run(["git", "-C", "/repo", "log", "--format=%h %s", "--grep=^verif"],
@@ -158,6 +173,12 @@ def main():
                 text = text + " Added in round 11: " + ADDED_R11[pid]
                 if pid in ("C04", "C18") and "seqx" not in engine:
                     engine = "seqx+" + engine
+            if pid in ADDED_R12:
+                text = text + " Added in round 12: " + ADDED_R12[pid]
+            if pid == "C12":
+                # the clause "on the right channel" is decided on a live connection (simx ids)
+                cat, engine = "model_checking", "seqx+simx"
+                tech = tech + ", plus stateless deviation-bounded exploration of open / call / close sequences on a live connection for the clause 'on the right channel' (ids 1, 65534, 65535, reused ids)"
             m["checks"].append({
                 "property_id": pid,
                 "quick_cmd": "./check %s quick" % pid,
